@@ -17,22 +17,22 @@ type actorRef struct {
 }
 
 type sysTranslator struct {
-	sc        *sysScenario
-	qOfID     map[int64]int        // Results.verifID -> scenario index
-	actors    map[int64]actorRef   // goroutine -> pipeline actor
-	nFw, nBw  []int                // started workers per query
-	closers   []map[int64]int      // per query: goroutine -> closer index
-	errSeq    []int64              // per query: next error id
-	iterErr   []int64              // per query: id used for the iterator failure
-	takenBy   []map[string]int     // per query: "file/blockidx" -> block worker index
-	curJob    map[int64]string     // goroutine -> job key it is scanning
-	opens     [][]int              // per query: global handle ordinals in open order
-	returnedI []int                // per query: index into returned rows
-	pendClosed []int               // per query: index in labels of an unresolved res.next.closed
-	termMark  []int                // per query: index in labels of the res.term.waited marker
-	pulled    [][]int64            // per query: files in the order the iteration yielded them
-	fsEnded   []bool               // per query: the iteration ran to its end (fs.end)
-	fsErr     []bool               // per query: the iterator yielded its error
+	sc         *sysScenario
+	qOfID      map[int64]int      // Results.verifID -> scenario index
+	actors     map[int64]actorRef // goroutine -> pipeline actor
+	nFw, nBw   []int              // started workers per query
+	closers    []map[int64]int    // per query: goroutine -> closer index
+	errSeq     []int64            // per query: next error id
+	iterErr    []int64            // per query: id used for the iterator failure
+	takenBy    []map[string]int   // per query: "file/blockidx" -> block worker index
+	curJob     map[int64]string   // goroutine -> job key it is scanning
+	opens      [][]int            // per query: global handle ordinals in open order
+	returnedI  []int              // per query: index into returned rows
+	pendClosed []int              // per query: index in labels of an unresolved res.next.closed
+	termMark   []int              // per query: index in labels of the res.term.waited marker
+	pulled     [][]int64          // per query: files in the order the iteration yielded them
+	fsEnded    []bool             // per query: the iteration ran to its end (fs.end)
+	fsErr      []bool             // per query: the iterator yielded its error
 }
 
 func newSysTranslator(sc *sysScenario) *sysTranslator {
@@ -429,7 +429,7 @@ func (t *sysTranslator) translate() (labels []string, bad string) {
 // first closed observation of their channel are moved in front of it, keeping their order.
 func linearizeReceives(labels []string) []string {
 	type key struct {
-		q    string
+		q     string
 		chan_ string
 	}
 	classify := func(l string) (key, string) {
